@@ -44,7 +44,7 @@ class BuildResult:
 
 def _run(cmd, cwd=None, timeout=COQ_TIMEOUT, env=None):
     e = dict(os.environ)
-    e.update({'PYTHONPATH': REPO_SRC, 'PYTHONHASHSEED': '0', 'LC_ALL': 'C'})
+    e.update({'PYTHONPATH': VERIF + os.pathsep + REPO_SRC, 'PYTHONHASHSEED': '0', 'LC_ALL': 'C'})
     if env:
         e.update(env)
     try:
@@ -250,8 +250,11 @@ def _requires(vfile):
     txt = open(vfile).read()
     txt = re.sub(r'\(\*.*?\*\)', '', txt, flags=re.S)
     mods = []
-    for m in re.finditer(r'(From\s+NDN\s+)?Require\s+(?:Import\s+|Export\s+)?((?:[\w.]+\s*)+)\.', txt):
-        for name in m.group(2).split():
+    for m in re.finditer(r'(From\s+NDN\s+)?Require\s+(?:Import\s+|Export\s+)?', txt):
+        end = re.search(r'\.(\s|$)', txt[m.end():])
+        if not end:
+            continue
+        for name in txt[m.end(): m.end() + end.start()].split():
             if name.startswith('NDN.'):
                 name = name[4:]
             elif not m.group(1):
